@@ -141,7 +141,7 @@ func (rn *runner) judge(d *dataset, qi int, q *querySpec, outs []outcome) {
 			if o.ans2 != nil {
 				if mm2 := compareAnswers(canon[i], o.ans2.canonical(o.cell.Desc), q.isMean()); mm2 != nil {
 					sig := classifyMeta(q, o.cell, o.cell, canon[i], o.ans2.canonical(o.cell.Desc), mm2)
-					if !strings.HasPrefix(sig, "metamorphic-only|") && sig != sigBTMEmpty {
+					if !strings.HasPrefix(sig, "metamorphic-only|") {
 						sig = "second-statement-of-batch|" + sig
 					}
 					addFail(sig, "metamorphic", "the two statements of one parallelbatch request differ: "+mm2.String(), o.cell, mm2, o.ans2)
@@ -413,9 +413,8 @@ func classify(q *querySpec, cl cell, mm *mismatch, oracle string, e *expected) s
 
 // classifyMeta: signature of a disagreement between two cells of a metamorphic-only query.
 func classifyMeta(q *querySpec, a, b cell, ref, got *answer, mm *mismatch) string {
-	if a.BTM && len(got.Series) == 0 && len(ref.Series) > 0 {
-		return sigBTMEmpty
-	}
+	// (an early class for empty answers under binary_tree_merge lived here until that
+	// defect was repaired in /repo 63e6b02; it mislabelled phantom-window differences)
 	var hasTag, hasField bool
 	q.Where.kinds(&hasTag, &hasField)
 	if q.Agg && hasField && (q.Interval == 0 || q.Fill == "none" || q.Fill == "previous") {
